@@ -110,30 +110,32 @@ let out_str (o : out) : string =
 
 let optz_str = function None -> "_" | Some z -> string_of_z z
 
+let xhex (x : string) : string = "x" ^ hex_of_string x
+
 let dump_str (d : db) : string =
   let b = Buffer.create 256 in
   let add = Buffer.add_string b in
   add "K";
   L.iter (fun r ->
-      add (Printf.sprintf " (%s %s %s %s %s %s %s)" (string_of_z r.k_id) (hex_of_string r.k_key)
+      add (Printf.sprintf " (%s %s %s %s %s %s %s)" (string_of_z r.k_id) (xhex r.k_key)
              (string_of_z r.k_type) (string_of_z r.k_ver) (optz_str r.k_etime)
              (string_of_z r.k_mtime) (optz_str r.k_len))) d.rkey;
   add " | S";
-  let srows = L.sort compare (L.map (fun r -> (small_int_of_z r.s_kid, hex_of_string r.s_val)) d.rstring) in
+  let srows = L.sort compare (L.map (fun r -> (small_int_of_z r.s_kid, xhex r.s_val)) d.rstring) in
   L.iter (fun (k, v) -> add (Printf.sprintf " (%d %s)" k v)) srows;
   add " | L";
   let lrows = L.stable_sort (fun a b ->
       let c = compare (small_int_of_z a.l_kid) (small_int_of_z b.l_kid) in
       if c <> 0 then c else compare (Float64.to_float a.l_pos) (Float64.to_float b.l_pos)) d.rlist in
-  L.iter (fun r -> add (Printf.sprintf " (%s %s)" (string_of_z r.l_kid) (hex_of_string r.l_elem))) lrows;
+  L.iter (fun r -> add (Printf.sprintf " (%s %s)" (string_of_z r.l_kid) (xhex r.l_elem))) lrows;
   add " | E";
-  L.iter (fun r -> add (Printf.sprintf " (%s %s %s)" (string_of_z r.e_rid) (string_of_z r.e_kid) (hex_of_string r.e_elem))) d.rset;
+  L.iter (fun r -> add (Printf.sprintf " (%s %s %s)" (string_of_z r.e_rid) (string_of_z r.e_kid) (xhex r.e_elem))) d.rset;
   add " | H";
   L.iter (fun r -> add (Printf.sprintf " (%s %s %s %s)" (string_of_z r.h_rid) (string_of_z r.h_kid)
-                         (hex_of_string r.h_field) (hex_of_string r.h_val))) d.rhash;
+                         (xhex r.h_field) (xhex r.h_val))) d.rhash;
   add " | Z";
   L.iter (fun r -> add (Printf.sprintf " (%s %s %s %s)" (string_of_z r.z_rid) (string_of_z r.z_kid)
-                         (hex_of_string r.z_elem) (bits_of_float (Float64.to_float r.z_score)))) d.rzset;
+                         (xhex r.z_elem) (bits_of_float (Float64.to_float r.z_score)))) d.rzset;
   Buffer.contents b
 
 let aval_str (v : Spec.aval) : string =
@@ -328,6 +330,116 @@ let p_op () : Ops.op =
   | "ZScan" -> let k = p_bytes () in let c = p_int () in let p = p_bytes () in Ops.ZScan (k, c, p, p_int ())
   | _ -> raise (Parse_error ("unknown operation " ^ name))
 
+
+(* ---------- parsing the implementation's observables (r / d lines) ---------- *)
+
+let parse_err (t : string) : err =
+  match t with
+  | "!notfound" -> ENotFound
+  | "!keytype" -> EKeyType
+  | "!valuetype" -> EValueType
+  | _ ->
+      let pre p = Str_.length t >= Str_.length p && Str_.sub t 0 (Str_.length p) = p in
+      let rest p = Str_.sub t (Str_.length p) (Str_.length t - Str_.length p) in
+      if pre "!sql:notnull:" then ESql (SqNotNull (rest "!sql:notnull:"))
+      else if pre "!sql:unique:" then ESql (SqUnique (rest "!sql:unique:"))
+      else if t = "!sql:mismatch" then ESql SqMismatch
+      else if t = "!sql:vacuum" then ESql SqVacuum
+      else if t = "!sql:scannull" then ESql SqScanNull
+      else if t = "!sql:readonly" then ESql SqReadOnly
+      else ESql SqFault
+
+let rec p_rv () : rv =
+  let t = next () in
+  if t = "_" then VNone
+  else if t = "[" then begin
+    let acc = ref [] in
+    while peek () <> "]" do acc := p_rv () :: !acc done;
+    ignore (next ()); VL (L.rev !acc)
+  end else if t = "{" then begin
+    let acc = ref [] in
+    while peek () <> "}" do acc := p_rv () :: !acc done;
+    ignore (next ()); VU (L.rev !acc)
+  end else if t = "b0" then VB false
+  else if t = "b1" then VB true
+  else if t <> "" && t.[0] = 'i' then VI (z_of_string (tail1 t))
+  else if t <> "" && t.[0] = 's' then VS (string_of_hex (tail1 t))
+  else if t <> "" && t.[0] = 'f' then VF (Float64.of_float (float_of_bits (tail1 t)))
+  else if t <> "" && t.[0] = '!' then VE (parse_err t)
+  else raise (Parse_error ("bad result token " ^ t))
+
+let p_out () : out =
+  match next () with
+  | "ok" -> { o_val = p_rv (); o_err = None }
+  | "err" -> let e = parse_err (next ()) in { o_val = p_rv (); o_err = Some e }
+  | t -> raise (Parse_error ("bad result head " ^ t))
+
+(* results of a block: outs separated by ";" *)
+let p_outs () : out list =
+  let acc = ref [] in
+  (try
+     while true do
+       acc := p_out () :: !acc;
+       (match !toks with
+        | ";" :: r -> toks := r
+        | [] -> raise Exit
+        | t :: _ -> raise (Parse_error ("expected ; got " ^ t)))
+     done
+   with Exit -> ());
+  L.rev !acc
+
+let p_optz t = if t = "_" then None else Some (z_of_string t)
+let unx (t : string) : string = if t <> "" && t.[0] = 'x' then string_of_hex (tail1 t) else raise (Parse_error ("dump: bad bytes " ^ t))
+
+(* a dump line: "K (..) (..) | S (..) | L (..) | E (..) | H (..) | Z (..)" *)
+let parse_dump () : db =
+  let section () : string list list =
+    (* rows until "|" or end *)
+    let rows = ref [] in
+    let continue_ = ref true in
+    while !continue_ do
+      match !toks with
+      | [] -> continue_ := false
+      | "|" :: r -> toks := r; continue_ := false
+      | t :: r ->
+          toks := r;
+          (* t starts with "(" ; collect until token ending with ")" *)
+          let fields = ref [] in
+          let cur = ref t in
+          let fin = ref false in
+          while not !fin do
+            let c = !cur in
+            let c = if Str_.length c > 0 && c.[0] = '(' then Str_.sub c 1 (Str_.length c - 1) else c in
+            if Str_.length c > 0 && c.[Str_.length c - 1] = ')' then begin
+              fields := Str_.sub c 0 (Str_.length c - 1) :: !fields; fin := true
+            end else begin
+              fields := c :: !fields; cur := next ()
+            end
+          done;
+          rows := L.rev !fields :: !rows
+    done;
+    L.rev !rows in
+  let expect h = let t = next () in if t <> h then raise (Parse_error ("dump: expected " ^ h ^ " got " ^ t)) in
+  expect "K";
+  let ks = section () in expect "S";
+  let ss = section () in expect "L";
+  let ls = section () in expect "E";
+  let es = section () in expect "H";
+  let hs = section () in expect "Z";
+  let zs = section () in
+  let z = z_of_string in
+  let cnt = ref 0.0 in
+  { rkey = L.map (function
+        | [id; key; ty; ver; et; mt; ln] ->
+            { k_id = z id; k_key = unx key; k_type = z ty; k_ver = z ver; k_etime = p_optz et; k_mtime = z mt; k_len = p_optz ln }
+        | _ -> raise (Parse_error "dump: bad K row")) ks;
+    rstring = L.map (function [kid; v] -> { s_kid = z kid; s_val = unx v } | _ -> raise (Parse_error "dump: bad S row")) ss;
+    rlist = L.map (function [kid; v] -> cnt := !cnt +. 1.0; { l_kid = z kid; l_pos = Float64.of_float !cnt; l_elem = unx v } | _ -> raise (Parse_error "dump: bad L row")) ls;
+    rset = L.map (function [rid; kid; v] -> { e_rid = z rid; e_kid = z kid; e_elem = unx v } | _ -> raise (Parse_error "dump: bad E row")) es;
+    rhash = L.map (function [rid; kid; f; v] -> { h_rid = z rid; h_kid = z kid; h_field = unx f; h_val = unx v } | _ -> raise (Parse_error "dump: bad H row")) hs;
+    rzset = L.map (function [rid; kid; v; sc] -> { z_rid = z rid; z_kid = z kid; z_elem = unx v; z_score = Float64.of_float (float_of_bits sc) } | _ -> raise (Parse_error "dump: bad Z row")) zs;
+    fk_on = true }
+
 (* ---------- the comparison with the specification ---------- *)
 
 let opt_err_str = function None -> "-" | Some e -> err_str e
@@ -343,53 +455,65 @@ let cmp_result (o : Ops.op) (mode : Spec.cmpmode) (ri : out) (rs : out) : string
   | Spec.CmpState | Spec.CmpNone -> None
 
 let () =
-  let d = ref Db.empty_db in
-  let s = ref ([] : Spec.sstate) in
+  let d = ref Db.empty_db in            (* faithful model state *)
+  let real = ref Db.empty_db in         (* the implementation's state, parsed from its dumps *)
+  let s = ref ([] : Spec.sstate) in     (* specification state *)
+  let obs_r : out list option ref = ref None in
+  let obs_d : db option ref = ref None in
   let pending : (coq_Z * bool * int * Ops.op list) option ref = ref None in
-  let finish_step now (d' : db) (s' : Spec.sstate) (verdict : string option) (skip : string option) =
-    let a = sstate_str (Abs.abs now d') in
+  (* verdict of the comparison of the IMPLEMENTATION's observables with the specification *)
+  let finish_step now (rd' : db) (s' : Spec.sstate) (verdict : string option) (skip : string option) =
+    let a = sstate_str (Abs.abs now rd') in
     let b = sstate_str (Spec.spurge now s') in
     (match skip with
      | Some why ->
          if Str_.length why > 5 && Str_.sub why 0 5 = "EXCL " then
            Printf.printf "V excl %s\n" (Str_.sub why 5 (Str_.length why - 5))
          else Printf.printf "V skip %s\n" why;
-         s := Abs.abs now d'
+         s := Abs.abs now rd'
      | None ->
          match verdict with
-         | Some v -> Printf.printf "V BAD %s\n" v; s := Abs.abs now d'
+         | Some v -> Printf.printf "V BAD %s\n" v; s := Abs.abs now rd'
          | None ->
              if a = b then (Printf.printf "V ok\n"; s := s')
-             else (Printf.printf "V BAD state impl=[%s] spec=[%s]\n" a b; s := Abs.abs now d'));
-    d := d'
+             else (Printf.printf "V BAD state impl=[%s] spec=[%s]\n" a b; s := Abs.abs now rd'))
+  in
+  let advance (md' : db) (rd' : db) =
+    (* keep the model in step with the implementation once they have diverged *)
+    d := (if dump_str md' = dump_str rd' then md' else rd');
+    real := rd';
+    obs_r := None; obs_d := None
   in
   let run_block now stop ops =
-    let (d', rs) = Ops.exec_update now ops stop !d in
-    Printf.printf "R %s\n" (Str_.concat " ; " (L.map out_str rs));
-    Printf.printf "D %s\n" (dump_str d');
+    let (md', mrs) = Ops.exec_update now ops stop !d in
+    Printf.printf "R %s\n" (Str_.concat " ; " (L.map out_str mrs));
+    Printf.printf "D %s\n" (dump_str md');
+    let rrs = match !obs_r with Some l -> l | None -> mrs in
+    let rd' = match !obs_d with Some x -> x | None -> md' in
+    let pre = !real in
     let (s', ss) = Spec.spec_update now ops stop !s in
     let skip =
-      match Excl.excluded_block now !d ops with
+      match Excl.excluded_block now pre ops with
       | Some name -> Some ("EXCL " ^ name)
       | None ->
       if L.exists (fun o -> Spec.spec_mode true o = Spec.CmpNone) ops then Some "storage-level operation in block"
-      else if (not stop) && L.exists (fun (r : out) -> r.o_err <> None) rs then Some "block continued after an error"
+      else if (not stop) && L.exists (fun (r : out) -> r.o_err <> None) rrs then Some "block continued after an error"
       else None in
     let verdict =
-      if L.length rs <> L.length ss then Some "result count differs"
+      if L.length rrs <> L.length ss then Some "result count differs"
       else
         let rec go os ri rs_ = match os, ri, rs_ with
           | o :: os', a :: ri', b :: rs' ->
               (match cmp_result o (Spec.spec_mode true o) a b with Some v -> Some v | None -> go os' ri' rs')
           | _ -> None in
-        go ops rs ss in
-    let pre = !d in
-    finish_step now d' s' verdict skip;
+        go ops rrs ss in
+    finish_step now rd' s' verdict skip;
     let bad = ref [] in
-    if not (Inv.inv_ok d') then bad := "inv" :: !bad;
-    if not (Inv.block_no_trace now ops stop pre) then bad := "trace" :: !bad;
-    if not (Inv.block_meta_ok now ops stop pre) then bad := "meta" :: !bad;
-    Printf.printf "N %s\n" (if !bad = [] then "ok" else Str_.concat "," !bad)
+    if not (Inv.inv_ok rd') then bad := "inv" :: !bad;
+    if not (Inv.block_no_trace now ops stop !d) then bad := "trace" :: !bad;
+    if not (Inv.block_meta_ok now ops stop !d) then bad := "meta" :: !bad;
+    Printf.printf "N %s\n" (if !bad = [] then "ok" else Str_.concat "," !bad);
+    advance md' rd'
   in
   (try
      while true do
@@ -399,27 +523,32 @@ let () =
          (try
             match next () with
             | "H" ->
-                d := Db.empty_db; s := []; pending := None;
+                d := Db.empty_db; real := Db.empty_db; s := []; pending := None; obs_r := None; obs_d := None;
                 Printf.printf "H %s\n" (Str_.concat " " !toks)
+            | "r" -> obs_r := Some (p_outs ())
+            | "d" -> obs_d := Some (parse_dump ())
             | "O" ->
                 let now = z_of_string (next ()) in
                 let o = p_op () in
-                let (d', r) = Ops.exec_db now o !d in
-                Printf.printf "R %s\n" (out_str r);
-                Printf.printf "D %s\n" (dump_str d');
+                let (md', mr) = Ops.exec_db now o !d in
+                Printf.printf "R %s\n" (out_str mr);
+                Printf.printf "D %s\n" (dump_str md');
+                let rr = match !obs_r with Some (x :: _) -> x | _ -> mr in
+                let rd' = match !obs_d with Some x -> x | None -> md' in
+                let pre = !real in
                 let mode = Spec.spec_mode false o in
                 let (s', rs) = Spec.spec_step now o !s in
                 let skip =
-                  match Excl.excluded now !d o with
+                  match Excl.excluded now pre o with
                   | Some name -> Some ("EXCL " ^ name)
                   | None -> if mode = Spec.CmpNone then Some "storage-level operation" else None in
-                let pre = !d in
-                finish_step now d' s' (cmp_result o mode r rs) skip;
+                finish_step now rd' s' (cmp_result o mode rr rs) skip;
                 let bad = ref [] in
-                if not (Inv.inv_ok d') then bad := "inv" :: !bad;
-                if not (Inv.no_trace_ok o r pre d') then bad := "trace" :: !bad;
-                if not (Inv.meta_ok now pre d') then bad := "meta" :: !bad;
-                Printf.printf "N %s\n" (if !bad = [] then "ok" else Str_.concat "," !bad)
+                if not (Inv.inv_ok rd') then bad := "inv" :: !bad;
+                if not (Inv.no_trace_ok o rr pre rd') then bad := "trace" :: !bad;
+                if not (Inv.meta_ok now pre rd') then bad := "meta" :: !bad;
+                Printf.printf "N %s\n" (if !bad = [] then "ok" else Str_.concat "," !bad);
+                advance md' rd'
             | "T" ->
                 let now = z_of_string (next ()) in
                 let stop = (next () = "1") in
